@@ -1,9 +1,4 @@
 --------------------------- MODULE MC_SpecsMatcher ---------------------------
-EXTENDS SpecsMatcher, Json, IOUtils
-\* one family per TLC run (environment variable C18_FAMILY), all of them without it
-Family == IF "C18_FAMILY" \in DOMAIN IOEnv THEN IOEnv.C18_FAMILY ELSE "all"
-InitFamily == c \in (CASE Family = "str" -> StrCases [] Family = "in" -> InCases [] Family = "num" -> NumCases
-                       [] Family = "range" -> RangeCases [] Family = "or" -> OrCases [] Family = "allin" -> AllInCases
-                       [] Family = "all" -> Cases)
+EXTENDS SpecsMatcher, Json
 Emit == PrintT(ToJson([c |-> c, layouts |-> Layouts, ref |-> Ref(c)]))
 =============================================================================
